@@ -77,7 +77,7 @@ def path_of(pkg: str, stem: str) -> str:
     return (pkg.replace(".", "/") + "/" if pkg else "") + stem + ".proto"
 
 
-def refs_file(pkg: str, targets: List[str], suffix: str = "") -> str:
+def refs_file(pkg: str, targets: List[str], suffix: str = "", alias_fields: bool = True) -> str:
     out = ['syntax = "proto3";']
     if pkg:
         out.append(f"package {pkg};")
@@ -104,7 +104,7 @@ def refs_file(pkg: str, targets: List[str], suffix: str = "") -> str:
             nm = "_".join(segs[k:])
             if nm and nm not in alias_names:
                 alias_names.append(nm)
-    for nm in alias_names:
+    for nm in (alias_names if alias_fields else []):
         out.append(f"  int32 {nm} = {n};"); n += 1
     out.append("}")
     out.append(f"service RefSvc{suffix} {{")
@@ -260,8 +260,8 @@ def check_rpc_only(r: str, tg: str, t: Tally) -> List[Tuple[str, str]]:
     return out
 
 
-def pair_program(r: str, tg: str):
-    files = {path_of(tg, "defs"): defs_file(tg), path_of(r, "refs"): refs_file(r, [tg])}
+def pair_program(r: str, tg: str, alias_fields: bool = True):
+    files = {path_of(tg, "defs"): defs_file(tg), path_of(r, "refs"): refs_file(r, [tg], alias_fields=alias_fields)}
     return files, [(r, [tg], "")]
 
 
